@@ -36,6 +36,9 @@ enum Event {
 	Rejected,
 	TrackDropped(usize),
 	ManagerDropped(usize),
+	/// before callback p: pause(0); resume_at(clock time far ahead); before callback p+1: the clock's handle is dropped
+	/// (a sound waiting to resume on a clock that no longer exists becomes Stopped)
+	ClockGone(usize),
 }
 #[derive(Debug, Clone, Copy, PartialEq)]
 enum Place {
@@ -81,6 +84,9 @@ fn scenarios() -> Vec<Sc> {
 		events.push(Event::TrackDropped(p));
 		events.push(Event::ManagerDropped(p));
 	}
+	for p in 0..3 {
+		events.push(Event::ClockGone(p));
+	}
 	for looping in [false, true] {
 		for &fault in &faults {
 			for &event in &events {
@@ -92,6 +98,9 @@ fn scenarios() -> Vec<Sc> {
 						}
 						if matches!(event, Event::Rejected) && matches!(place, Place::PausedSound) {
 							continue;
+						}
+						if matches!(event, Event::ClockGone(_)) && matches!(place, Place::PausedTrack) {
+							continue; // frozen with its track: never reaches the removed clock
 						}
 						v.push(Sc {
 							looping,
@@ -138,7 +147,7 @@ impl Check for C10 {
 		}
 	}
 	fn rule(&self) -> String {
-		"E3: {6-frame finite, 6-frame looping stream} x fault {none, k-th decode call fails (k=1..8), k-th seek call fails (k=1..4)} x terminal event {none/natural end/failure, stop(0) and stop(2 frames) before callback 0..3, rejected by a full track, its track's handle dropped before callback 0..3, manager dropped before callback 0..3} x placement {main track, sub-track, paused sub-track, paused sound} x decoder pace {ahead, lagging (1 step per 2-frame callback), stalled then ahead}; E2: all interleavings (preemption bound 2, 3 thorough) of the decoder thread with a driver thread for six harnesses. A case is non-trivial when the decoder thread actually ran concurrently to a callback and the terminal event / fault occurred".into()
+		"E3: {6-frame finite, 6-frame looping stream} x fault {none, k-th decode call fails (k=1..8), k-th seek call fails (k=1..4)} x terminal event {none/natural end/failure, stop(0) and stop(2 frames) before callback 0..3, pause + resume_at(clock) before callback 0..2 with the clock dropped one callback later, rejected by a full track, its track's handle dropped before callback 0..3, manager dropped before callback 0..3} x placement {main track, sub-track, paused sub-track, paused sound} x decoder pace {ahead, lagging (1 step per 2-frame callback), stalled then ahead}; E2: all interleavings (preemption bound 2, 3 thorough) of the decoder thread with a driver thread for six harnesses. A case is non-trivial when the decoder thread actually ran concurrently to a callback and the terminal event / fault occurred".into()
 	}
 	fn assumptions(&self) -> Vec<String> {
 		vec![
@@ -234,6 +243,7 @@ fn run(sc: &Sc, ctx: &mut Ctx) {
 			None => blocker.push(Box::new(m.as_mut().unwrap().play(d).expect("blocker"))),
 		}
 	}
+	let mut clock = if matches!(sc.event, Event::ClockGone(_)) { Some(m.as_mut().unwrap().add_clock(kira::clock::ClockSpeed::TicksPerSecond(1.0)).expect("clock")) } else { None };
 	let first = pacer::count();
 	let (data, stats) = make_data(sc.looping, sc.fault);
 	let played = match track.as_mut() {
@@ -294,6 +304,17 @@ fn run(sc: &Sc, ctx: &mut Ctx) {
 			}
 			Event::TrackDropped(p) if p == cb => {
 				track = None;
+				event_done = true;
+				event_at = Some(cb);
+			}
+			Event::ClockGone(p) if p == cb => {
+				if let (Some(h), Some(c)) = (handle.as_mut(), clock.as_ref()) {
+					h.pause(tw(0.0, SR));
+					h.resume_at(kira::StartTime::ClockTime(kira::clock::ClockTime { clock: c.id(), ticks: 1000, fraction: 0.0 }), tw(0.0, SR));
+				}
+			}
+			Event::ClockGone(p) if p + 1 == cb => {
+				clock = None;
 				event_done = true;
 				event_at = Some(cb);
 			}
@@ -428,6 +449,7 @@ fn run(sc: &Sc, ctx: &mut Ctx) {
 				Event::Rejected => "being rejected by a full track".to_string(),
 				Event::TrackDropped(_) => "its track being dropped".to_string(),
 				Event::ManagerDropped(_) => "the manager being dropped".to_string(),
+				Event::ClockGone(_) => "the clock it was waiting to resume on was removed".to_string(),
 			}
 		};
 		ctx.fail(
@@ -525,6 +547,7 @@ fn run(sc: &Sc, ctx: &mut Ctx) {
 	drop(handle);
 	drop(track);
 	drop(blocker);
+	drop(clock);
 	drop(m);
 }
 
